@@ -95,6 +95,9 @@ def write_tree(d, g, sets, option, style):
             incs.append(p)
         if style == "glob" and i == 1 and incs:
             incs = ["inc_*.toml"]
+        if style == "repeat-glob" and i == 1 and incs:
+            # a file named by an earlier entry is matched again by a glob, and it is not the glob's last match: it is skipped, the others are not
+            incs = [incs[0], "inc_*.toml"]
         if style == "subdirs-glob" and i == 1 and incs:
             incs = ["dir*/inc_*.toml"]
         if incs:
@@ -266,11 +269,11 @@ def run(ctx):
     rng = random.Random(ctx.seed)
     for pt in pts:
         if pt["e"] == "Load":
-            styles = ["relative", "absolute", "mixed", "subdirs"] + (["glob", "subdirs-glob"] if pt["gi"] in (1,) else [])
+            styles = ["relative", "absolute", "mixed", "subdirs"] + (["glob", "subdirs-glob", "repeat-glob"] if pt["gi"] in (1,) else [])
             for oi, o in enumerate(GLOBAL_OPTIONS):
                 for si, st in enumerate(styles):
                     nested_subdirs = st == "subdirs" and pt["gi"] in (2, 7, 8) and oi % 5 == ctx.seed % 5
-                    if ctx.tier != "thorough" and (oi + si + pt["gi"] + sum(pt["sets"])) % 3 != ctx.seed % 3 and not nested_subdirs:
+                    if ctx.tier != "thorough" and (oi + si + pt["gi"] + sum(pt["sets"])) % 3 != ctx.seed % 3 and not nested_subdirs and st != "repeat-glob":
                         continue
                     jobs_load.append((len(jobs_load), pt, o, st, root))
         elif pt["e"] == "Prec":
